@@ -12,6 +12,8 @@ recorded numbers.  The back-propagation distances to the sphere are logged
 certificates which the spec verifies.  Calibration on every run.
 """
 import copy
+import json
+import os
 import math
 import random
 from concurrent.futures import ProcessPoolExecutor
@@ -33,11 +35,17 @@ def _f(x):
     return float(np.asarray(x, dtype=float).ravel()[0])
 
 
-def make_distribution(kind, n):
-    from optiland.distribution import GaussianQuadrature
+def make_distribution(kind, n, seed=0):
+    from optiland.distribution import GaussianQuadrature, RandomDistribution
     if kind == "gq":
         d = GaussianQuadrature(is_symmetric=False)
         d.generate_points(num_rings=n)
+        return d
+    if kind == "random":
+        # the named 'random' distribution draws from an unseeded generator: the same class, seeded, keeps
+        # a run reproducible (a recorded violation can be replayed)
+        d = RandomDistribution(seed=seed)
+        d.generate_points(n)
         return d
     return kind
 
@@ -62,7 +70,8 @@ def build_lens(seed, i):
         # even i: closed-form surfaces only (spheres, conics, planes) - judged to float precision;
         # odd i: even aspheres mixed in - judged within their documented intersection tolerance
         kinds = ("standard",) if (i % 2 == 0 or i % 8 == 3) else ("standard", "standard", "even_asphere")
-        optic, meta = G.random_lens(rnd, kinds=kinds, mirrors=(i % 5 == 0),
+        # (one lens in four images onto a curved surface: the chief ray then meets the image off its vertex plane)
+        optic, meta = G.random_lens(rnd, kinds=kinds, mirrors=(i % 5 == 0), curved_image=(i % 4 == 2),
                                     finite_object=finite, field_type="object_height" if finite else "angle")
         w0 = optic.primary_wavelength
         if i % 4 == 3 or _f(optic.image_surface.material_pre.n(w0)) == 1.0:
@@ -173,7 +182,7 @@ def lens_events(optic, meta, rnd, quick, label):
     kind = meta["dist"]
     nr = meta["num_rays"]
     base = {"lens": label, "view": "Wavefront", "dist": kind, "num_rays": nr}
-    wf = G.quiet(Wavefront, optic, "all", "all", nr, make_distribution(kind, nr))
+    wf = G.quiet(Wavefront, optic, "all", "all", nr, make_distribution(kind, nr, seed=rnd.randrange(1 << 30)))
     xs, ys = np.array(wf.distribution.x, dtype=float), np.array(wf.distribution.y, dtype=float)
     fields = optic.fields.get_field_coords()
     wls = optic.wavelengths.get_wavelengths()
@@ -206,7 +215,7 @@ def lens_events(optic, meta, rnd, quick, label):
     m = rnd.randint(2, 4 if quick else 12)
     dk = rnd.choice(["hexapolar", "uniform", "random"])
     nn = rnd.randint(3, 5)
-    rv = G.quiet(RmsWavefrontErrorVsField, optic, m, [w], nn, dk)
+    rv = G.quiet(RmsWavefrontErrorVsField, optic, m, [w], nn, make_distribution(dk, nn, seed=rnd.randrange(1 << 30)))
     xs, ys = np.array(rv.distribution.x, dtype=float), np.array(rv.distribution.y, dtype=float)
     # the curve must be evaluated on the documented samples of (distribution, num_rays)
     ev.append(dict({"kind": "count", "dist": dk, "n": int(nn), "npts": int(len(np.array(rv.data[0][0][0])))},
@@ -348,7 +357,12 @@ def corruptions(e, rnd):
     px = math.hypot(fl(e["fan"][2]), fl(e["fan"][3])) if e["fan"][0] else 1.0
     ang = math.sqrt(max(0.0, 1 - sum(d[i] * fl(e["dc"][i]) for i in range(3)) ** 2))
     shift = 0.02 * r
-    if ang * shift > 1e-4 + 20 * zt and not e["chief"]:
+    # first-order change of the path difference when the centre moves by shift * (0.6, -0.8, 0): the
+    # projection of (d - dc) on that direction - a shift perpendicular to the ray's transverse
+    # direction changes nothing, however oblique the ray is
+    dcv = [fl(x) for x in e["dc"]]
+    proj = abs((d[0] - dcv[0]) * 0.6 - (d[1] - dcv[1]) * 0.8) * shift
+    if min(ang * shift, proj) > 1e-3 + 200 * zt and not e["chief"]:
         C2 = [C[0] + shift * 0.6, C[1] - shift * 0.8, C[2]]
         c = copy.deepcopy(e)
         c["C"] = [dy(v) for v in C2]
@@ -411,6 +425,11 @@ def main(ctx):
                         "meta": res.get("meta"), "traceback": res.get("tb")})
             continue
         nl += 1
+        if os.environ.get("VERIF_VERBOSE"):
+            import hashlib
+            ctx.log("lens %s %s: %d events, digest %s" % (res.get("sample") or res.get("seed"), res.get("i"), len(res["events"]),
+                    hashlib.sha256(json.dumps([{k: v for k, v in e.items() if not k.startswith("_")} for e in res["events"]],
+                                              sort_keys=True).encode()).hexdigest()[:12]))
         for e in res["events"]:
             e["id"] = len(events)
             tags[e["id"]] = e.pop("_tag")
@@ -487,10 +506,16 @@ def main(ctx):
     for cid, cl in expect.items():
         kinds[cl[0]] = kinds.get(cl[0], 0) + 1
     ctx.extra["calibration"] = {"corruptions": len(cal), "by_expected_clause": kinds, "missed": len(missed)}
+    import hashlib
+    ctx.log("digest of the recorded events: %s" % hashlib.sha256(json.dumps(
+        [{k: v for k, v in e.items() if k != "id"} for e in events], sort_keys=True).encode()).hexdigest()[:16])
     if len(cal) < 20 and not ctx.violations:
         # (with violations on record, few accepted events are the code's doing, not the machinery's)
         raise T.MachineryError("calibration set too small (%d): too few accepted events" % len(cal))
     if missed:
+        if os.environ.get("VERIF_VERBOSE"):
+            for cid, cl, got in missed[:2]:
+                ctx.log("missed corruption %d: %s" % (cid, json.dumps(cal[cid])[:3000]))
         raise T.MachineryError("corrupted events not rejected (spec too permissive): %s" % missed[:3])
     ctx.assumptions += [
         "the back-propagation distance t to the reference sphere is a logged certificate (float quadratic + one exact Newton step); "
